@@ -112,11 +112,14 @@ def report_swap(ctx, p1, p2, dtype, got, exp, path):
     exp2 = dist[tuple(p2)]
     if exp2 != exp:
         raise HarnessError(f"models disagree on {p1}->{p2}: {exp} vs {exp2}")
+    sig = "swap_distance|differs from the fewest exchanges found by search"
     if again == exp:
-        raise HarnessError(f"swap case not reproducible through the public "
-                           f"call: {p1} {p2} {path} gave {got}, now {again}")
+        # The enumeration hands the SAME array objects to many calls (as an
+        # all-pairs loop of a user would); a fresh pair of arrays gives the
+        # right value, so an earlier call must have changed its arguments.
+        sig += "|only when the argument arrays are reused across calls"
     ctx.violation(
-        "swap_distance|differs from the fewest exchanges found by search",
+        sig,
         f"swap_distance({list(p1)}, {list(p2)}) [{dtype}, {path}] = {got}, "
         f"public call = {again}, fewest position exchanges (BFS) = {exp}",
         dict(kind="swap", p1=list(p1), p2=list(p2), dtype=dtype))
